@@ -294,4 +294,167 @@ Proof.
   - apply Hev. exact Hfront.
   - apply body_nonterm. exact Hok2.
 Qed.
+(* ---------- the same with a counter: `c FOR count`, the counter used in the operands of the body ---------- *)
+Definition subst_elem (c : text) (j : N) (x : lelem) : lelem :=
+  match x with
+  | LInstr t => LInstr (mkTL (tl_labs t) (tl_op t) (tl_am t) (map (subst_body c [] j) (tl_A t))
+                          (match tl_B t with Some (bm, B) => Some (bm, map (subst_body c [] j) B) | None => None end) (tl_cmt t))
+  | _ => x
+  end.
+Definition sek (c : text) (j : N) (xk : lelem * nat) : lelem * nat := (subst_elem c j (fst xk), snd xk).
+
+Lemma subst_nontext c j t : t_typ t <> tokText -> subst_body c [] j t = t.
+Proof. intros H. unfold subst_body. destruct (t_typ t); try reflexivity. congruence. Qed.
+Lemma subst_mode c j m : map (subst_body c [] j) (mode_toks m) = mode_toks m.
+Proof. destruct m; reflexivity. Qed.
+Lemma subst_cmt c j cm : map (subst_body c [] j) (cmt_toks cm) = cmt_toks cm.
+Proof. destruct cm; reflexivity. Qed.
+Lemma subst_op c j o : o <> c -> subst_body c [] j (mkT tokText o) = mkT tokText o.
+Proof. intros H. unfold subst_body. cbn [t_typ t_val]. rewrite text_eqb_neq by exact H. reflexivity. Qed.
+Lemma plain_subst_inv c j t : plain_tok (subst_body c [] j t) -> plain_tok t.
+Proof.
+  unfold subst_body. destruct (t_typ t) eqn:E; try (intros H; exact H).
+  intros _. unfold plain_tok, is_terminal. rewrite E. split; [reflexivity|discriminate].
+Qed.
+
+Definition op_differs (c : text) (x : lelem) : Prop := match x with LInstr t => tl_op t <> c | _ => True end.
+
+Lemma subst_rest c j x : flat_elem x -> op_differs c x ->
+  snd (line_rest (subst_elem c j x)) = map (subst_body c [] j) (snd (line_rest x)).
+Proof.
+  destruct x as [t|cm|kw e cmt|labs kw e cmt]; cbn [flat_elem op_differs]; intros Hf Ho; try contradiction; [|reflexivity].
+  cbn [subst_elem line_rest snd tl_op tl_am tl_A tl_B tl_cmt]. unfold tline_last. cbn [tl_B tl_A].
+  cbn [map]. rewrite (subst_op c j _ Ho). f_equal.
+  rewrite !map_app, subst_mode, subst_cmt.
+  destruct (tl_B t) as [[bm B]|]; cbn [map app]; rewrite ?map_app; cbn [map]; rewrite ?subst_mode; reflexivity.
+Qed.
+Lemma subst_fst_rest c j x : fst (line_rest (subst_elem c j x)) = fst (line_rest x).
+Proof. destruct x; reflexivity. Qed.
+Lemma subst_elem_toks c j x : flat_elem x -> op_differs c x ->
+  lelem_toks (subst_elem c j x) = map (subst_body c [] j) (lelem_toks x).
+Proof.
+  destruct x as [t|cm|kw e cmt|labs kw e cmt]; cbn [flat_elem op_differs]; intros Hf Ho; try contradiction; [|reflexivity].
+  cbn [subst_elem lelem_toks]. unfold tline_toks, tline_head, tline_last. cbn [tl_labs tl_op tl_am tl_A tl_B tl_cmt]. rewrite Hf.
+  cbn [map app]. rewrite (subst_op c j _ Ho). f_equal.
+  rewrite !map_app, subst_mode, subst_cmt.
+  destruct (tl_B t) as [[bm B]|]; cbn [map app]; rewrite ?map_app; cbn [map]; rewrite ?subst_mode, <- ?app_assoc; reflexivity.
+Qed.
+Lemma subst_body_doc c j es : Forall (fun xk => flat_elem (fst xk) /\ op_differs c (fst xk)) es ->
+  body (map (sek c j) es) = map (subst_body c [] j) (body es).
+Proof.
+  induction 1 as [|[x k] es [Hf Ho] _ IH]; [reflexivity|]. cbn [map sek fst snd body]. rewrite IH, !map_app.
+  cbn [fst] in Hf, Ho. rewrite (subst_elem_toks c j x Hf Ho). f_equal. f_equal.
+  induction k as [|k IHk]; [reflexivity|]. cbn [repeat map]. rewrite <- IHk. reflexivity.
+Qed.
+Lemma body_concat_map (f : N -> list (lelem * nat)) l : body (concat (map f l)) = flat_map (fun j => body (f j)) l.
+Proof. induction l as [|j l IH]; [reflexivity|]. cbn [map concat flat_map]. rewrite body_app, IH. reflexivity. Qed.
+
+(* the lines of the body as the expander wants them, from what is known about their first written-out copy *)
+Lemma cnt_elem_blines c xk : flat_elem (fst xk) -> lelem_ok (subst_elem c 1 (fst xk)) ->
+  Forall pline_ok (elem_plines (sek c 1 xk)) -> op_differs c (fst xk) -> Forall cnt_bline (elem_blines xk).
+Proof.
+  intros Hf Hok Hpl Ho. unfold elem_blines, elem_plines in *. cbn [map]. cbn [sek fst snd] in Hpl. inversion Hpl as [|p0 ps0 Hp0 _]; subst. constructor.
+  - destruct Hp0 as [_ [Hplain _]]. cbn [pl_rest] in Hplain. rewrite (subst_rest c 1 (fst xk) Hf Ho) in Hplain.
+    split; [reflexivity|]. split.
+    + cbn [bl_rest pl_rest]. clear - Hplain. induction (snd (line_rest (fst xk))) as [|t r IH]; [constructor|].
+      cbn [map] in Hplain. inversion Hplain; subst. constructor; [eapply plain_subst_inv; eassumption|apply IH; assumption].
+    + cbn [bl_rest pl_rest].
+      destruct xk as [[t|cm|kw e cmt|labs kw e cmt] k]; cbn [fst flat_elem] in Hf; try contradiction; cbn [fst snd line_rest] in *.
+      * destruct Hok as [_ [_ [[O1 [O2 O3]] _]]]. cbn [subst_elem tl_op] in O1, O2, O3.
+        exists true. unfold bl_first. cbn [bl_rest app hd]. unfold wclass. rewrite O1, O3, O2. reflexivity.
+      * exists false. reflexivity.
+  - apply Forall_forall. intros b Hb. apply in_map_iff in Hb. destruct Hb as [p [<- Hp]]. apply repeat_spec in Hp. subst p.
+    split; [reflexivity|]. split; [constructor|]. exists false. reflexivity.
+Qed.
+
+Theorem counter_for_program cfg org (its : list Prog.item) es1 bodyEs es2 lead c count n forw rofw skip nm au code start inp toks rkN :
+  let es := es1 ++ concat (map (fun j => map (sek c j) bodyEs) (nseq 1 (S n))) ++ es2 in
+  validate cfg = true ->
+  spell_ok spell (flat_map il_labels (instrs its) ++ map fst (equs its)) ->
+  renders_doc2 spell org its es -> shape2_ok es -> Forall (fun xk => (1 <= snd xk)%nat) es ->
+  ranked spell (equs its) rkN ->
+  bodies_known cfg its ->
+  meaning (mconf_of cfg) (mkProg its org None nm au []) = MOk code start ->
+  (* the text: lines in front, c FOR count, the body once with the counter in it, ROF, lines behind *)
+  Forall (fun xk => junk_free (fst xk)) es1 -> Forall (fun xk => flat_elem (fst xk)) bodyEs -> is_label c ->
+  t_typ forw = tokText -> tok_is_pseudo forw = true -> lower_is (t_val forw) "for" = true -> Forall plain_tok count ->
+  t_typ rofw = tokText -> tok_is_pseudo rofw = true -> lower_is (t_val rofw) "for" = false -> lower_is (t_val rofw) "rof" = true ->
+  Forall plain_tok skip ->
+  (forall syms, front_symbols (doc_plines lead es1) = Some syms ->
+     expand_and_evaluate (filter noncomment count) (with_constants cfg syms) = Some (EOk (Z.of_nat (S n)))) ->
+  lex_ascii inp = Some toks -> counts_modelled toks None = true ->
+  toks = repeat nl_tok lead ++ body es1 ++ (mkT tokText c :: forw :: count ++ [nlt]) ++ body bodyEs ++ rofw :: skip ++ (nlt :: body es2 ++ [tEOF]) ->
+  compile_warrior cfg inp = COk code start (dmeta (mkPM [] [] []) es).
+Proof.
+  intros es Hv Hsp Hrd Hsh Hk1 Hrk Hbod Hmean Hjf Hfe Hc Hft Hfp Hff Hcount Hrt Hrp Hrf Hrr Hskip Hev Hlex Hcm Htoks.
+  apply (for_program_tokens spell cfg org its es lead nm au code start inp toks 1%nat rkN); try assumption;
+    [|unfold max_for_passes; lia].
+  pose proof (r2_ok spell its Hsp org its es Hrd (incl_refl _) Hsh) as Hok.
+  pose proof (r2_plines spell org its es Hrd Hok Hsh) as Hpl.
+  assert (Hshk : Forall (fun xk => labs_shape (fst xk) /\ (1 <= snd xk)%nat) es).
+  { apply Forall_forall. intros xk Hx. unfold shape2_ok in Hsh. rewrite Forall_forall in Hsh, Hk1. split; [apply Hsh|apply Hk1]; exact Hx. }
+  assert (Ees : es = es1 ++ map (sek c 1) bodyEs ++ (concat (map (fun j => map (sek c j) bodyEs) (nseq 2 n)) ++ es2)).
+  { unfold es. rewrite nseq_S. cbn [map concat]. rewrite <- !app_assoc. reflexivity. }
+  assert (Hsplit : forall (P : lelem * nat -> Prop), Forall P es -> Forall P es1 /\ Forall P (map (sek c 1) bodyEs) /\ Forall P es2).
+  { intros P HP. rewrite Ees in HP. apply Forall_app in HP. destruct HP as [H1 HP]. apply Forall_app in HP. destruct HP as [H2 H3].
+    apply Forall_app in H3. destruct H3 as [_ H3]. auto. }
+  destruct (Hsplit _ Hshk) as [Hshk1 [HshkB Hshk2]]. destruct (Hsplit _ Hok) as [Hok1 [HokB Hok2]].
+  rewrite Ees in Hpl. rewrite !flat_map_app in Hpl. apply Forall_app in Hpl. destruct Hpl as [Hpl1 Hpl]. apply Forall_app in Hpl. destruct Hpl as [HplB _].
+  (* the mnemonics of the body are not the counter *)
+  assert (Hod : Forall (fun xk => op_differs c (fst xk)) bodyEs).
+  { clear - HokB Hc. induction bodyEs as [|[x k] bs IH]; [constructor|]. cbn [map] in HokB. inversion HokB; subst. constructor; [|apply IH; assumption].
+    cbn [fst sek] in *. destruct x as [t|cm|kw e cmt|labs kw e cmt]; cbn [op_differs]; try exact I.
+    match goal with H : lelem_ok _ |- _ => destruct H as [_ [_ [[_ [O2 _]] _]]] end. cbn [subst_elem tl_op] in O2.
+    intros E. destruct Hc as [_ Hc2]. rewrite E in O2. rewrite O2 in Hc2. discriminate Hc2. }
+  (* the lines in front *)
+  destruct (r2_app_inv es1 _ org its Hrd) as [org1 [its1 [its2 [Eits [R1 _]]]]].
+  assert (Hev_nd : NoDup (map spell (map fst (equs its)))).
+  { destruct Hsp as [_ _ Hinj Hnd _]. apply NoDup_map_spell.
+    - clear - Hnd. induction (flat_map il_labels (instrs its)) as [|a l IH]; [exact Hnd|]. cbn [app] in Hnd. inversion Hnd; subst. apply IH. assumption.
+    - intros a b Ha Hb. apply Hinj; apply in_or_app; right; assumption. }
+  assert (Hnd1 : NoDup (map spell (map fst (equs its1)))).
+  { pose proof Hev_nd as H. rewrite Eits, equs_app, !map_app in H. apply nodup_app_l in H. exact H. }
+  assert (Hsh1 : Forall (fun xk => labs_shape (fst xk)) es1) by (eapply Forall_impl; [|exact Hshk1]; intros a [Ha _]; exact Ha).
+  destruct (r2_scan_value spell org1 its1 es1 R1 Hsh1 [] Hnd1) as [syms Hsyms].
+  assert (Hfront : front_symbols (doc_plines lead es1) = Some syms).
+  { unfold front_symbols, doc_plines. rewrite scan_spec_app, scan_spec_empty, Hsyms. reflexivity. }
+  assert (Hpre : Forall pline_ok (doc_plines lead es1)).
+  { unfold doc_plines. apply Forall_app. split; [apply empty_pline_ok|exact Hpl1]. }
+  (* the body *)
+  assert (HB : Forall cnt_bline (flat_map elem_blines bodyEs)).
+  { clear - Hfe HokB HplB Hod. induction bodyEs as [|xk bs IH]; [constructor|]. cbn [flat_map map] in *.
+    inversion Hfe; subst. inversion HokB; subst. inversion Hod; subst. apply Forall_app in HplB. destruct HplB as [Hp1 Hp2].
+    apply Forall_app. split; [apply (cnt_elem_blines c); assumption|apply IH; assumption]. }
+  assert (HfB : Forall (fun xk => flat_elem (fst xk) /\ labs_shape (fst xk) /\ (1 <= snd xk)%nat) bodyEs).
+  { clear - Hfe HshkB. induction bodyEs as [|[x k] bs IH]; [constructor|]. cbn [map] in HshkB. inversion Hfe; subst. inversion HshkB as [|a b [A1 A2] A3]; subst.
+    constructor; [|apply IH; assumption]. cbn [sek fst snd] in *. split; [assumption|]. split; [|exact A2].
+    unfold labs_shape in *. rewrite subst_fst_rest in A1. exact A1. }
+  assert (EB : flat_map bl_toks (flat_map elem_blines bodyEs) = body bodyEs) by (apply flat_body_toks; exact HfB).
+  assert (Hfo : Forall (fun xk => flat_elem (fst xk) /\ op_differs c (fst xk)) bodyEs).
+  { apply Forall_forall. intros xk Hx. rewrite Forall_forall in Hfe, Hod. split; [apply Hfe|apply Hod]; exact Hx. }
+  (* the final document *)
+  assert (Efin : ldoc_toks lead es = flat_map pl_toks (doc_plines lead es) ++ [tEOF]).
+  { unfold ldoc_toks. rewrite (doc_plines_toks lead es Hshk). rewrite <- app_assoc. reflexivity. }
+  assert (Hdone : unrolls cfg 0 (ldoc_toks lead es) (ldoc_toks lead es)).
+  { rewrite Efin. apply U_done; [|reflexivity|].
+    - unfold doc_plines. apply Forall_app. split; [apply empty_pline_ok|]. apply (r2_plines spell org its es Hrd Hok Hsh).
+    - unfold plain_symbols, doc_plines. rewrite scan_spec_app, scan_spec_empty.
+      apply (r2_scan spell org its es Hrd Hsh [] Hev_nd). intros m0. discriminate. }
+  assert (Eout : flat_map pl_out (doc_plines lead es1)
+                 ++ flat_map (fun j => map (subst_body c [] j) (flat_map bl_toks (flat_map elem_blines bodyEs))) (nseq 1 (Z.to_nat (Z.of_nat (S n))))
+                 ++ body es2 ++ [tEOF] = ldoc_toks lead es).
+  { rewrite Nat2Z.id, EB. rewrite (doc_out_junkfree lead es1 Hjf). rewrite (doc_plines_toks lead es1 Hshk1).
+    unfold ldoc_toks, es. rewrite !body_app, body_concat_map.
+    rewrite (flat_map_ext _ _ (fun j => subst_body_doc c j bodyEs Hfo)).
+    rewrite <- !app_assoc. reflexivity. }
+  rewrite <- Eout. rewrite <- Eout in Hdone.
+  assert (Et : toks = flat_map pl_toks (doc_plines lead es1) ++ (mkT tokText c :: forw :: count ++ [nlt]) ++ flat_map bl_toks (flat_map elem_blines bodyEs)
+                      ++ rofw :: skip ++ (nlt :: body es2 ++ [tEOF])).
+  { rewrite Htoks, EB. rewrite (doc_plines_toks lead es1 Hshk1). rewrite <- !app_assoc. reflexivity. }
+  rewrite Et.
+  apply (counter_block_unrolls cfg (doc_plines lead es1) c forw count (flat_map elem_blines bodyEs) rofw skip (body es2) syms (Z.of_nat (S n)));
+    try assumption.
+  - apply Hev. exact Hfront.
+  - apply body_nonterm. exact Hok2.
+Qed.
 End Flat.
